@@ -354,3 +354,15 @@ Proof. intros t H. apply interp_no_panic. apply shapeb_sound. exact H. Qed.
 (* the implicit skipping rules of this grammar are silent: they cannot contribute pairs *)
 Lemma implicit_rules_silent : implicit_silent grammar = true.
 Proof. vm_compute. reflexivity. Qed.
+
+Lemma shape_children : forall t : tree, Shape t ->
+  Kids (child_rx (root t)) (kids t) /\
+  Forall (fun c => In (root c) (syms (child_rx (root t))) /\ Shape c) (kids t).
+Proof. intros t H. split; [exact (shape_kids t H) | exact (kids_syms _ _ (shape_kids t H))]. Qed.
+
+Lemma interp_never_panics : forall t : tree, Shape t ->
+  (forall s, to_res (interp t) <> Panic s) /\ to_res (interp t) <> OutOfFuel.
+Proof.
+  intros t H. pose proof (interp_no_panic t H) as N.
+  destruct (interp t); cbn [to_res no_panic] in *; split; try intros s0; try discriminate; contradiction.
+Qed.
